@@ -18,6 +18,8 @@ def run(tier, seed):
     if not r1.ok:
         raise common.ToolError("Handshake.tla: Auth fails on the specification:\n" + r1.out[-1500:])
     hs = r1.printed("CASE")
+    # ---- SessionId.tla: the assumption Handshake.tla rests on (an identifier per session, bound to BOTH ends' contributions)
+    sid_cov, sid_fails = run_sid(tier, d)
     maxops = 5 if tier == "quick" else 6
     cfgname = "MC_Pool_gen.cfg"
     with open(os.path.join(common.SPECS, "network", cfgname), "w") as f:
@@ -29,7 +31,7 @@ def run(tier, seed):
     if not r2.ok:
         raise common.ToolError("Pool.tla invariant fails on the specification:\n" + r2.out[-1500:])
     pool = r2.printed("CASE")
-    fails, samples, evals = [], [], 0
+    fails, samples, evals = list(sid_fails), [], 0
     rounds = 2 if tier == "quick" else 10
     for k in range(rounds):
         cp = os.path.join(d, "hs_cases.ndjson")
@@ -89,6 +91,7 @@ def run(tier, seed):
            "node_level_rule": "Pool.tla sequences of 5 connect/hang-up operations (sampled to 1500 per endpoint in the quick tier) replayed on a real running node "
                               "(listener, preface, noise, handshake, pool, RPC service) over loopback TCP: gossip endpoint (1 static inbound, 2 non-configured, quota 1) and "
                               "validator endpoint (2 members, 1 non-member, no quota); admission observed as 'the node starts its RPC service' vs 'closes'; then 6 racing dial tasks",
+           "session_id": sid_cov,
            "exhaustive": True, "auth_theorem": "checked by TLC: 3 sessions, 2 honest keys + attacker + non-member, 2 chains"}
     common.write_evidence(PROP, tier, seed, "model_checking", cov,
                           ["signatures unforgeable; the session id is unique per noise session (hash of the handshake transcript) and shared by its two ends only",
@@ -99,12 +102,64 @@ def run(tier, seed):
     return 0
 
 
+def run_sid(tier, d):
+    """SidUnique / RelayRefused on SessionId.tla (and their failure under the weakening, as a vacuity guard); every explored combination of sessions
+    replayed with real noise::Stream ends and a raw noise adversary whose ephemeral key is fixed (reused)."""
+    import json
+    nsess = 2 if tier == "quick" else 3
+    cfgname = "MC_SessionId_gen.cfg"
+    res = {}
+    for weaken in ("none", "sid_after_first_message"):
+        with open(os.path.join(common.SPECS, "network", cfgname), "w") as f:
+            f.write(f'CONSTANTS Honest = {{"a", "b"}} AdvEph = {{1, 2}} MaxSessions = {nsess} Weaken = "{weaken}"\nINIT Init\nNEXT Next\nCONSTRAINT Interesting\n'
+                    f'INVARIANTS SidUnique RelayRefused Done\nCHECK_DEADLOCK FALSE\n')
+        try:
+            res[weaken] = common.tlc("network", "MC_SessionId", cfg=cfgname, workers=1, timeout=600)
+        finally:
+            os.remove(os.path.join(common.SPECS, "network", cfgname))
+    if not res["none"].ok:
+        raise common.ToolError("SessionId.tla: SidUnique / RelayRefused fail on the specification:\n" + res["none"].out[-1500:])
+    if res["sid_after_first_message"].ok or res["sid_after_first_message"].violated not in ("SidUnique", "RelayRefused"):
+        raise common.ToolError("SessionId.tla: the weakened variant (identifier taken after the first handshake message) does not violate SidUnique - the check is vacuous")
+    seen, cases = set(), []
+    for c in res["none"].printed("CASE"):
+        k = json.dumps(c, sort_keys=True)
+        if k not in seen:
+            seen.add(k)
+            cases.append(c)
+    cp = os.path.join(d, "sid_cases.ndjson")
+    common.write_ndjson(cp, cases)
+    rp = os.path.join(d, "sid_report.json")
+    rc, so, se = common.run_bin("sid_replay", [cp, rp], timeout=600)
+    if rc != 0:
+        raise common.ToolError("sid_replay failed: " + se[-800:])
+    rep = common.load_report(rp)
+    drift = rep["counters"].get("sid_differs_from_noise_handshake_hash", 0)
+    if drift:
+        log(f"NOTE drift component=noise: in {drift} session(s) the identifier of the real end is not the noise handshake hash the raw peer computed "
+            "(the property is decided by uniqueness, not by this)")
+    log(f"[C12] session identifiers: {res['none'].distinct} spec states, {len(cases)} session combinations replayed on real noise ends, weakened spec violates {res['sid_after_first_message'].violated}")
+    return {"sid_failures": len(rep["failures"]), "spec_states": res["none"].distinct, "session_combinations_replayed": len(cases), "sessions_per_combination": nsess,
+            "weakened_spec_violates": res["sid_after_first_message"].violated, "samples": rep["samples"][:2],
+            "rule": "sessions between {honest, honest}, {adversary initiating, honest}, {honest, adversary responding}; the adversary reuses or varies its ephemeral key; "
+                    "honest ends = real noise::Stream, adversary ends = raw noise peer with a fixed ephemeral key; identifiers equal within a session, distinct across sessions"}, rep["failures"]
+
+
 def replay(path, seed):
     import json
     c = json.load(open(path))["case"]
     common.cargo_build()
     d = common.outdir(PROP)
     mode = c.get("mode", "handshake")
+    if mode == "sid":
+        cp = os.path.join(d, "replay_case.ndjson")
+        common.write_ndjson(cp, [c["case"]])
+        rp = os.path.join(d, "replay_report.json")
+        common.run_bin("sid_replay", [cp, rp])
+        rep = common.load_report(rp)
+        common.handle_failures(PROP, rep["failures"], "replay_failure")
+        log("replay: no violation")
+        return 0
     if mode == "node":
         cp = os.path.join(d, "replay_case.ndjson")
         inner = c["case"]
